@@ -62,6 +62,24 @@ func runC15(c *Ctx) {
 			one(rn, "!AB1C2"+ch, "pos:chan-after-id")
 		}
 	}
+	// every two-byte character (U+0080..U+07FF) and a spread of three- and four-byte ones, validly encoded, in the positions above:
+	// the grammar is over BYTES, a character outside ASCII is never a name character whatever its code point's low bits are
+	for cp := 0x80; cp <= 0x7FF; cp++ {
+		ch := string(rune(cp))
+		for _, rn := range []string{"validnick", "validuser", "validchan"} {
+			one(rn, "a"+ch+"b", "pos:utf8-2")
+			one(rn, "~a"+ch, "pos:utf8-2")
+		}
+	}
+	for _, cp := range []int{0x800, 0x2041, 0x2030, 0x205F, 0x20AC, 0x3041, 0xFF41, 0xFFFD, 0x10041, 0x1F430, 0x1F600, 0x10FF5A} {
+		ch := string(rune(cp))
+		for _, rn := range all {
+			one(rn, "a"+ch+"b", "pos:utf8-3-4")
+			one(rn, "~a"+ch, "pos:utf8-3-4")
+			one(rn, "#"+ch, "pos:utf8-3-4")
+			one(rn, ch+"a", "pos:utf8-3-4")
+		}
+	}
 	r.Exhaustive = true
 	// boundary lengths
 	for _, n := range []int{0, 1, 2, 3, 6, 7, 8, 49, 50, 51, 52, 200} {
